@@ -41,8 +41,11 @@ FIXED = [
  ("C08", "c08:table[Tr]:differs:TextRenderMode", "text rendering modes 6 and 7 are valid", "'6 Tr' and '7 Tr' rejected and dropped"),
  ("C08", "c08:table[BI]:differs:InlineImage", "seek_substr finds occurrences that start inside a partial match", "inline image whose data ends in LF ('ID \\n\\nEI') reported as unterminated"),
  ("C19", "c19:unicode-map-differs (write_cmap)", "write_cmap separates bfrange array elements with white-space", "write_cmap wrote '[<0041>, <0042>]': the reader stopped at the first range"),
+ ("C12", "c12:cache-visible:object-cache-only:get<*>-after-[..get<other type>..]", "a cached load error for one type must not be returned for another type", "get::<XObject>(3) then get::<Primitive>(3): cached document returned the first call's MissingEntry error"),
+ ("C12", "c12:cache-visible:stream-cache-only:raw_image_data/Stream::data", "raw_image_data must not put partially decoded data into the stream cache", "jpeg.pdf obj 7: Stream::data then raw_image_data returned the fully decoded 786432 bytes instead of the 14562-byte JPEG (and vice versa)"),
 ]
 OPEN = [
+ ("C12", "gate:xref-stream-of-encrypted-file", "reading the cross-reference stream object of an encrypted file (Stream::data / resolve) decrypts it although cross-reference streams are never encrypted; with a stream cache the right data is returned because loading cached it before the decoder existed, without one the call fails ('can't inflate'), so the caches are visible for that one object; a repair needs the xref-stream object ids to be carried out of the xref reader (public signatures change), so it is recorded"),
  ("C06", "gate:encrypt-direct-in-trailer", "a document whose trailer holds the /Encrypt dictionary directly (legal, ISO 32000-1 Table 15) cannot be opened with any password: Trailer.encrypt_dict is Option<RcRef<CryptDict>> and rejects a direct dictionary (UnexpectedPrimitive expected Reference); repairing it changes a public field type and needs writers for CryptDict, so it is recorded, not fixed"),
 ]
 
